@@ -659,7 +659,10 @@ def _src(fn):
 
 
 def uses_construct(cls):
-    return 'Construct' in _src(cls.unpack) and 'Construct' in _src(cls.pack)
+    def via(fn, generic):
+        t = _src(fn)
+        return 'Construct' in t or ('MessagePayload.%s(' % generic) in t
+    return via(cls.unpack, 'unpack') and via(cls.pack, 'pack')
 
 
 def value_dependent_unpack(cls):
